@@ -198,6 +198,16 @@ func (fc *FnCtx) trBinary(st *State, x *ast.BinaryExpr) Val {
 	switch x.Op {
 	case token.LAND, token.LOR:
 		a := fc.tr(st, x.X)
+		if fc.scope != nil {
+			// contract clauses: a statically false guard (e.g. called(f) on a path where f was
+			// not called) short-circuits, the other operand is not translated
+			if x.Op == token.LAND && a.T == "false" {
+				return boolVal("false")
+			}
+			if x.Op == token.LOR && a.T == "true" {
+				return boolVal("true")
+			}
+		}
 		g := a.T
 		if x.Op == token.LOR {
 			g = not(a.T)
